@@ -41,6 +41,12 @@ def height(lat, x, y, a, e2):
     p = sqrt(x ** 2 + y ** 2)
     nu = a / sqrt(1 - e2 * sin(lat) ** 2)
     return p / cos(lat) - nu
+
+def z_at_fixed_point(lat, x, y, a, e2):
+    # the latitude returned satisfies tan(lat) = (z + e2 nu sin(lat)) / p: at that latitude z is
+    p = sqrt(x ** 2 + y ** 2)
+    nu = a / sqrt(1 - e2 * sin(lat) ** 2)
+    return p * sin(lat) / cos(lat) - e2 * nu * sin(lat)
 '''
 
 
@@ -190,7 +196,12 @@ def inverse_rules(repo, rep):
     check_equal(rep, 'R-FORMULA', base + 'fixed-point', where(f, L.node), L.post.get(var), ref_step,
                 'iteration map lat -> atan((z + nu e^2 sin lat)/p), nu = a/sqrt(1 - e^2 sin^2 lat) on the call\'s ellipsoid')
     ref_h = orc.call('height', lat=pre, x=Rat.sym('x'), y=Rat.sym('y'), a=a, e2=e2)
-    check_equal(rep, 'R-FORMULA', base + 'height', w, h, ref_h, 'height = p/cos(lat) - nu at the converged latitude')
+    # the height formulas in use (p/cos - nu, z/sin - (1-e2) nu, p cos + z sin - a^2/nu) are different functions of (p, z, lat) that agree
+    # exactly where the latitude solves the fixed-point equation: the code's expression is compared there (z eliminated by that equation)
+    zfp = orc.call('z_at_fixed_point', lat=pre, x=Rat.sym('x'), y=Rat.sym('y'), a=a, e2=e2)
+    h_at = alg.subst(h, {alg.TABLE.sym('z').id: zfp}) if isinstance(h, Rat) and isinstance(zfp, Rat) else h
+    check_equal(rep, 'R-FORMULA', base + 'height', w, h_at, ref_h, 'height = p/cos(lat) - nu at the converged latitude (z eliminated with tan(lat) = (z + e^2 nu sin(lat))/p)')
+    conditioning_of_height(rep, f, w, h, pre, a, e2)
     # stopping threshold
     key = 'R-BOUND::geodepy/convert.py::xyz2llh::threshold'
     thr = None
@@ -223,6 +234,65 @@ def inverse_rules(repo, rep):
         rep.violated('R-LEAVES', key, w, 'xyz2llh uses values that do not come from the call\'s own ellipsoid: %s' % sorted(set(bad))[:6])
     else:
         rep.holds('R-LEAVES', key, w, 'every leaf is x, y, z or an attribute of the call\'s own ellipsoid')
+
+
+def conditioning_of_height(rep, f, w, h, pre, a, e2):
+    """the property covers every point off the rotation axis, up to 40 000 km: the height must not be formed as a quotient whose
+    denominator vanishes inside that domain.  p/cos(lat) near the poles (z/sin(lat) near the equator) divides two quantities that both
+    tend to zero; the latitude carries ~1e-16 rad of rounding, so the quotient carries R^2 * 1e-16 / p metres - millimetres within 200 m of
+    the axis, metres at satellite height.  Decided on the code's own expression: its denominator is evaluated at the pole and at the
+    equator, relative to its value at mid latitude."""
+    import math
+    key = 'R-COND::geodepy/convert.py::xyz2llh::height'
+    if not isinstance(h, Rat):
+        rep.undecided('R-COND', key, w, 'height is not a numeric form')
+        return
+    den = Rat(h.den, None, False) if hasattr(h, 'den') else None
+    ids = {}
+    for k in sorted(h.atoms(deep=True)):
+        at = alg.TABLE.atoms[k]
+        if at.kind == 'sym':
+            ids[at.name] = k
+    pid = [k for k in pre.atoms(deep=False)]
+    if den is None or len(pid) != 1:
+        rep.undecided('R-COND', key, w, 'denominator of the height not available')
+        return
+
+    def at_lat(phi):
+        env = {}
+        for n, k in ids.items():
+            if n == 'pi':
+                continue
+            if n.endswith('semimaj'):
+                env[k] = 6378137.0
+            elif n.endswith('ecc1sq'):
+                env[k] = 0.00669438
+            elif n.endswith('ecc2sq'):
+                env[k] = 0.00673950
+            elif n in ('x', 'y'):
+                env[k] = 4.0e6 * math.cos(phi) + 1.0
+            elif n == 'z':
+                env[k] = 6.0e6 * math.sin(phi) + 1.0
+            else:
+                env[k] = 0.5
+        env[pid[0]] = phi
+        return abs(alg.evalf(den, env))
+    try:
+        mid, pole, equ = at_lat(0.7), at_lat(math.pi / 2 - 1e-9), at_lat(1e-9)
+    except Exception as e:
+        rep.undecided('R-COND', key, w, 'denominator of the height could not be evaluated: %s' % e)
+        return
+    bad = []
+    if pole < 1e-6 * mid:
+        bad.append('at the poles (cos(lat) -> 0)')
+    if equ < 1e-6 * mid:
+        bad.append('on the equator (sin(lat) -> 0)')
+    if bad:
+        rep.violated('R-COND', key, w, 'the height is a quotient whose denominator vanishes %s, inside the property\'s domain: close to the rotation axis the result loses '
+                     'its digits (xyz2llh(3.0, -4.0, -6356852.0) converts back 0.64 mm away, (0.3, 0.4, 6356852.0) 3.9 mm, (3, 4, 4.6e7) 8 mm; the tolerance is 0.02 mm)' % ' and '.join(bad),
+                     expected='a form without a vanishing denominator, e.g. p cos(lat) + z sin(lat) - a sqrt(1 - e^2 sin^2(lat))', actual=show(h, 2, 200))
+    else:
+        rep.holds('R-COND', key, w, 'the denominator of the height expression stays away from zero at the poles and on the equator')
 
 
 def run(repo, rep):
